@@ -24,6 +24,12 @@ pub fn tag(v: &Value) -> Value {
     }
 }
 
+/// f32 bit pattern with every NaN mapped to the canonical quiet NaN (the model's floats do not keep
+/// the sign or payload of a NaN)
+fn bits(f: f32) -> u32 {
+    if f.is_nan() { 0x7fc0_0000 } else { f.to_bits() }
+}
+
 pub fn run(infile: &str, outfile: &str) {
     let inp = std::io::BufReader::new(std::fs::File::open(infile).unwrap());
     let mut out = std::io::BufWriter::new(std::fs::File::create(outfile).unwrap());
@@ -49,7 +55,7 @@ pub fn run(infile: &str, outfile: &str) {
                 let a = amb.verif_dump();
                 json!({"ok": {
                     "courses": courses.iter().map(|c| { let d = verif::dump_course(c);
-                        json!([d.dbid, d.name, d.num_min, d.num_max, d.instructors, d.room_factor.to_bits(), d.room_offset.to_bits(), d.fixed_course, d.hidden_participant_names]) }).collect::<Vec<_>>(),
+                        json!([d.dbid, d.name, d.num_min, d.num_max, d.instructors, bits(d.room_factor), bits(d.room_offset), d.fixed_course, d.hidden_participant_names]) }).collect::<Vec<_>>(),
                     "parts": parts.iter().map(|p| { let d = verif::dump_participant(p);
                         json!([d.dbid, d.name, d.choices.iter().map(|(c, pen)| json!([c, pen])).collect::<Vec<_>>()]) }).collect::<Vec<_>>(),
                     "amb": [a.event_id, a.track_id, a.external.map(|(n, p)| json!([n, p])), a.track_name, a.ignored_inactive_courses, a.ignored_assigned_participants],
@@ -80,7 +86,7 @@ pub fn run_simple(infile: &str, outfile: &str) {
                 let consistent = crate::common::catch(|| cdecao::io::check_data_consistency(&parts, &courses).is_ok());
                 json!({"ok": {
                     "courses": courses.iter().map(|c| { let d = verif::dump_course(c);
-                        json!([d.index, d.name, d.num_min, d.num_max, d.instructors, d.room_factor.to_bits(), d.room_offset.to_bits(), d.fixed_course, d.hidden_participant_names]) }).collect::<Vec<_>>(),
+                        json!([d.index, d.name, d.num_min, d.num_max, d.instructors, bits(d.room_factor), bits(d.room_offset), d.fixed_course, d.hidden_participant_names]) }).collect::<Vec<_>>(),
                     "parts": parts.iter().map(|p| { let d = verif::dump_participant(p);
                         json!([d.index, d.name, d.choices.iter().map(|(c, pen)| json!([c, pen])).collect::<Vec<_>>()]) }).collect::<Vec<_>>(),
                     "consistent": consistent.unwrap_or(false)}})
